@@ -229,7 +229,7 @@ def replay_collision(data):
 def long_histories(res, tier):
     from ..common import pmap
 
-    periods = [1, 2, 3, 5, 8, 9, 15, 16, 17, 31, 32, 33, 63, 64, 65, 100, 127, 128, 129, 130] + ([255, 256, 257, 300, 511, 512, 513] if tier == "thorough" else [])
+    periods = [1, 2, 3, 5, 8, 9, 15, 16, 17, 31, 32, 33, 63, 64, 65, 100, 127, 128, 129, 130, 257, 300] + ([255, 256, 257, 300, 511, 512, 513] if tier == "thorough" else [])
     units = [(p, 3, n) for p in periods for n in (1, 2)]
     units += [(n, "bulk", 1) for n in ([10, 300, 5000, 10000, 70000, -300, -70000] + ([140000, 300000, -140000] if tier == "thorough" else []))]
     for w in pmap(_long_work, units, chunk=1, inline_ok=False):
